@@ -35,6 +35,10 @@ class HarnessError(Exception):
     """Something is wrong with the harness (not with pfhedge): exit 2."""
 
 
+class FamilyTimeout(Exception):
+    """A family ran far beyond any plausible time: the code under test loops."""
+
+
 def _jsonable(x, depth=0):
     """Best-effort conversion of tensors / numpy / fractions / mpmath to JSON."""
     try:
@@ -172,10 +176,29 @@ class Ctx:
         prev = (self._family, self._block)
         self._family, self._block = name, block
         d0 = torch.get_default_dtype()
+        # safety net against a tree under test that loops forever inside a python-level loop:
+        # a family of the quick tier never needs more than a few minutes
+        budget = int(os.environ.get("VERIF_FAMILY_TIMEOUT", "900" if self.tier == "quick" else "7200"))
+        armed = False
+        try:
+            import signal
+            import threading
+            if threading.current_thread() is threading.main_thread() and prev[0] is None:
+                def _on_alarm(signum, frame):
+                    raise FamilyTimeout(f"family {name} exceeded {budget} s")
+                old_handler = signal.signal(signal.SIGALRM, _on_alarm)
+                signal.alarm(budget)
+                armed = True
+        except (ValueError, ImportError):
+            armed = False
         try:
             fam(self, block)
         except HarnessError:
             raise
+        except FamilyTimeout as e:
+            self.violation(f"family:{name}", "hang:family_timeout",
+                           f"{e}: the code under test does not terminate on some case of this block",
+                           observed="timeout", expected="termination")
         except Exception as e:
             site = blame(e)
             if site is None:
@@ -185,6 +208,9 @@ class Ctx:
                            f"{type(e).__name__}: {str(e)[:300]} (uncaught, raised inside pfhedge)",
                            observed=traceback.format_exc()[-1500:], expected="no exception")
         finally:
+            if armed:
+                signal.alarm(0)
+                signal.signal(signal.SIGALRM, old_handler)
             self._family, self._block = prev
             if torch.get_default_dtype() != d0:
                 torch.set_default_dtype(d0)
